@@ -406,6 +406,10 @@ func (p *RedisProtocol) processError() (interface{}, error) {
 
 func (p *RedisProtocol) parseTargetHostAndSlot(clusterRedirectResponse string) (host string, po int, slot int, err error) {
 	arr := strings.Split(clusterRedirectResponse, " ")
+	if len(arr) < 3 {
+		err = newConnectError("Malformed cluster redirection: " + clusterRedirectResponse)
+		return
+	}
 	host, port := p.extractParts(arr[2])
 	slot, _ = strconv.Atoi(arr[1])
 	po, err = strconv.Atoi(port)
